@@ -783,6 +783,10 @@ func c10GenReqCase(r *rand.Rand, big bool) *c10Case {
 	if big {
 		maxN = 12
 	}
+	long := r.Intn(12) == 0 // a very long chain: dozens of forged entries before the ones the proxies appended
+	if long {
+		maxN = 20 + r.Intn(60)
+	}
 	if r.Intn(10) != 0 {
 		var ents []string
 		switch r.Intn(4) {
@@ -790,6 +794,9 @@ func c10GenReqCase(r *rand.Rand, big bool) *c10Case {
 			ents = c10GenList(r, c, r.Intn(maxN+1))
 		default:
 			ents = c10GenList(r, c, r.Intn(3))
+			if long {
+				ents = c10GenList(r, c, 10+r.Intn(maxN))
+			}
 			e := c10Addr(r, c, 1)
 			if r.Intn(4) == 0 {
 				e = c10Pick(r, c10Garbage)
